@@ -60,6 +60,12 @@ fn err<E: std::fmt::Debug>(e: E) -> Out {
 }
 
 pub fn silence_panics() {
+    // every SelectExecutor allocates a zeroed 10 MB arena; once glibc has raised its dynamic mmap
+    // threshold that is a 10 MB memset per query. A fixed threshold keeps the allocation an
+    // anonymous mmap (zero pages on demand): SELECT-heavy loops run several times faster.
+    unsafe {
+        libc::mallopt(libc::M_MMAP_THRESHOLD, 1 << 20);
+    }
     if std::env::var("VERIF_SHOW_PANICS").is_ok() {
         return;
     }
